@@ -1,6 +1,7 @@
 import WireV.Value
 import WireV.Tables
 import WireP.Lemmas.ValueProofs
+import WireP.Lemmas.AccessProofs
 /-! # C13 — `wire.Value` expressions never call a function or receive from a channel
 
 Model: `WireV.whitelistOk` (the `ast.Inspect` walk of `processValue`, parametrised by the facts
@@ -79,5 +80,50 @@ theorem value_copy_complete :
 
 example : ("SliceExpr", "child") ∈ ((Generated.astNodes.find? (fun c => c.1 == "SliceExpr")).map
     (fun c => c.2.filter (·.1 == "Max") |>.map (fun f => (c.1, f.2)))).getD [] := by decide
+
+/-! ## expressions that mention identifiers the injector's package cannot access (`accessibleFrom`, `WireV.Access`) -/
+section access
+open WireP.Access
+
+/-- **Accepted iff every node is nameable from the target package**: no unexported identifier or positionally set unexported
+    field of another package, nothing of a package the target may not import (internal-package rule), nothing function-local. -/
+theorem accessible_iff (want : Nat) (nodes : List ANode) :
+    accessibleFrom want nodes = none ↔ ∀ n ∈ nodes, NodeOk want n :=
+  accessible_none_iff want nodes
+
+/-- an accepted expression mentions no unexported identifier of another package -/
+theorem accessible_no_foreign_unexported {want : Nat} {nodes : List ANode} (h : accessibleFrom want nodes = none)
+    (i : AIdent) (hi : .ident i ∈ nodes) (hs : i.scope ≠ .pkgName ∧ i.scope ≠ .noPkg) (hp : i.pkg ≠ want) :
+    i.exported = true ∧ i.importable = true ∧ i.scope ≠ .local := by
+  have := (accessible_none_iff want nodes).1 h _ hi
+  rcases this with h1 | h1 | ⟨hl, h2 | h2⟩
+  · exact absurd h1 hs.1
+  · exact absurd h1 hs.2
+  · exact absurd h2 hp
+  · exact ⟨h2.1, h2.2, hl⟩
+
+/-- an accepted expression sets no unexported field of another package through a positional literal -/
+theorem accessible_no_foreign_positional {want : Nat} {nodes : List ANode} (h : accessibleFrom want nodes = none)
+    (fs : List AField) (hl : .lit fs ∈ nodes) (f : AField) (hf : f ∈ fs) (hp : f.pkg ≠ want) : f.exported = true := by
+  rcases (accessible_none_iff want nodes).1 h _ hl f hf with he | he
+  · exact he
+  · exact absurd he hp
+
+/-- a rejection names the first offending node of the walk -/
+theorem accessible_reports_first (want : Nat) (nodes : List ANode) (e : AErr) (h : accessibleFrom want nodes = some e) :
+    ∃ pre n post, nodes = pre ++ n :: post ∧ (∀ m ∈ pre, NodeOk want m) ∧ nodeErr want n = some e :=
+  accessible_some_first want nodes e h
+
+/-! non-vacuity: `lib.Exp + lib.T{X: 1}.X` is fine from package 0; `unexp`, a positional `T{1, 2}` of package 1, a local and an
+identifier of an internal package are not -/
+example : accessibleFrom 0 [.ident ⟨1, false, .pkgName, 9, true⟩, .ident ⟨2, true, .pkgScope, 1, true⟩, .lit [],
+    .ident ⟨3, true, .pkgScope, 1, true⟩, .ident ⟨4, true, .member, 1, true⟩] = none := by decide
+example : accessibleFrom 0 [.ident ⟨2, true, .pkgScope, 1, true⟩, .ident ⟨5, false, .pkgScope, 1, true⟩] = some (.unexported 5) := by decide
+example : accessibleFrom 0 [.lit [⟨4, true, 1⟩, ⟨6, false, 1⟩]] = some (.setsUnexported 6) := by decide
+example : accessibleFrom 1 [.lit [⟨4, true, 1⟩, ⟨6, false, 1⟩]] = none := by decide
+example : accessibleFrom 0 [.ident ⟨7, false, .local, 0, true⟩] = some (.notPkgScope 7) := by decide
+example : accessibleFrom 0 [.ident ⟨8, true, .pkgScope, 2, false⟩] = some (.internal 8) := by decide
+
+end access
 
 end WireP.C13
